@@ -77,6 +77,19 @@ def Skeleton.ordered (sk : Skeleton) : Bool :=
 def Skeleton.writerFlushes (sk : Skeleton) : Bool :=
   [Fault.none, .atBody, .atBodyBase].all fun f => flushesAfterBody (sk.trace .writing f)
 
+/-- does the trace of a session with fault `f` reach a flush only with the file open?  (`begin` opens unless the
+fault is `atBegin`; `end_` closes unless the fault is `atEnd`; a reading session writes nothing) -/
+def opensFirstT (k : Kind) (f : Fault) : Bool → List Step → Bool
+  | _, [] => true
+  | o, .begin :: t => opensFirstT k f (if f == .atBegin then o else true) t
+  | o, .end_ :: t => opensFirstT k f (if f == .atEnd then o else false) t
+  | o, .flush :: t => (o || k == .reading) && opensFirstT k f o t
+  | o, _ :: t => opensFirstT k f o t
+
+/-- every flush of a writing session happens on a file that the session itself opened before -/
+def Skeleton.opensBeforeWrite (sk : Skeleton) : Bool :=
+  allKinds.all fun k => allFaults.all fun f => opensFirstT k f false (sk.trace k f)
+
 /-! ### programs of atomic actions -/
 
 inductive Act
@@ -195,5 +208,48 @@ def runSched (s : Sys) (sched : List Nat) : Sys := sched.foldl tick s
 def initSys (file : List KV) (progs : List (List Act)) : Sys :=
   { file := file, torn := false, n := progs.length,
     sess := fun j => newSess (progs.getD j []) }
+
+/-! ### processes that are killed inside a session
+
+A process may die at any point (SIGKILL, power loss of one node, OOM): its session simply stops.  The kernel drops
+its lock; whatever it had queued is gone; if it was in the middle of writing a record the library is left with a torn
+tail behind its last complete record.  By C03 (`crash_atomic`, `crash_stale_reopen`) readers do not see that tail and
+the next session that opens the file for appending cuts it off before it writes. -/
+
+structure KSys where
+  s : Sys
+  deadTail : Bool            -- a killed writer left a torn record behind the last complete record
+
+inductive Ev
+  | run (i : Nat)            -- session i takes its next step if it is enabled
+  | kill (i : Nat)           -- the process running session i dies
+deriving Repr
+
+def midWrite (x : Sess) : Bool :=
+  match x.prog with
+  | .writeEnd :: _ => true
+  | _ => false
+
+/-- a dead session: nothing left to run, no lock (the kernel released it), file descriptor gone; the ghost fields keep
+what it had put and written so far -/
+def killSess (x : Sess) : Sess := { x with prog := [], inCS := false, fileOpen := false }
+
+/-- the next step of session `i` is a writer opening the library (mode 'a': a torn tail is cut off) -/
+def opensForAppend (s : Sys) (i : Nat) : Bool :=
+  decide (i < s.n) && enabled s i && (s.sess i).writer &&
+    (match (s.sess i).prog with | .openFile :: _ => true | _ => false)
+
+def ktick (k : KSys) : Ev → KSys
+  | .run i => { s := tick k.s i, deadTail := if opensForAppend k.s i then false else k.deadTail }
+  | .kill i =>
+    if i < k.s.n ∧ (k.s.sess i).prog ≠ [] then
+      let x := k.s.sess i
+      { s := setSess { k.s with file := k.s.file, torn := if midWrite x then false else k.s.torn } i (killSess x),
+        deadTail := k.deadTail || midWrite x }
+    else k
+
+def runEvents (k : KSys) (evs : List Ev) : KSys := evs.foldl ktick k
+
+def initKSys (file : List KV) (progs : List (List Act)) : KSys := { s := initSys file progs, deadTail := false }
 
 end Molli.Model.Sessions
